@@ -172,7 +172,7 @@ def trace_cases(tier: str) -> list[dict]:
     for (key, phase) in PHASES_QUICK + (PHASES_EXTRA if tier == "thorough" else []):
         sp = phase_spec(key, phase)
         for start in sp["starts"]:
-            for rng in sp["ranges"]:
+            for rng in list(sp["ranges"]) + (["from-start", "to-start"] if start == "Tc" else []):
                 if tier == "quick":
                     combos = [(DTF[a], RTOL[b], UNITS[c]) for (a, b, c) in L9]
                     firsts = [None]
@@ -488,7 +488,12 @@ def _setup(p):
     am = MD.Scaled(base, s)
     sp = phase_spec(p["model"], p["phase"])
     T0 = float(sp["starts"][p["start"]] * s)
-    req = tuple(float(x * s) for x in sp["ranges"][p["range"]])
+    if p["range"] == "from-start":  # the starting temperature IS the lower end of the requested range (no downward trace at all)
+        req = (T0, float(sp["in_hi"] * s))
+    elif p["range"] == "to-start":  # ... the upper end
+        req = (float(sp["in_lo"] * s), T0)
+    else:
+        req = tuple(float(x * s) for x in sp["ranges"][p["range"]])
     spin = {k: ((sp[k][0] * s, sp[k][1]) if sp[k] else None) for k in ("lo", "hi")}
     return am, sp, s, T0, req, spin
 
